@@ -308,6 +308,10 @@ func (self valSorter) Less(i, j int) bool {
 		// keys of a map[interface{}]... arrive wrapped in their interface
 		return valSorter{self[i].Elem(), self[j].Elem()}.Less(0, 1)
 	}
+	if self[i].Kind() != self[j].Kind() {
+		// keys of a union type: numbers and text in one map
+		return self[i].Kind() < self[j].Kind()
+	}
 	switch self[i].Type().Kind() {
 	case reflect.String:
 		return strings.Compare(self[i].String(), self[j].String()) < 0
